@@ -31,6 +31,7 @@ import (
 	"go.uber.org/zap"
 
 	"github.com/mimiro-io/datahub/internal/server"
+	"github.com/mimiro-io/datahub/internal/verifhook"
 )
 
 // Interface defs
@@ -342,6 +343,9 @@ func (datasetSink *datasetSink) endFullSync(ctx context.Context, runner *Runner)
 }
 
 func (datasetSink *datasetSink) processEntities(runner *Runner, entities []*server.Entity) error {
+	if ferr := verifhook.FaultOn(runner, "sink.dataset", entities); ferr != nil {
+		return ferr
+	}
 	exists := datasetSink.DatasetManager.IsDataset(datasetSink.DatasetName)
 	if !exists {
 		return fmt.Errorf("dataset does not exist: %v", datasetSink.DatasetName)
